@@ -107,7 +107,7 @@ def step(line):
             return show_bits(U.decode_into_bit_array(data, int(p[2])))
         if cmd == 'armor':
             s, f = U.encode_ascii_6(parse_bits(p[1]))
-            return '%s %d' % (s.encode().hex(), f)
+            return '%s %d' % (s.encode().hex() or '-', f)
         if cmd == 'sotdma':
             return show_cs(U.get_sotdma_comm_state(int(p[1])))
         if cmd == 'itdma':
